@@ -11,3 +11,7 @@ import PsaDhcp.Spec.Table
 import PsaDhcp.Props.C11
 import PsaDhcp.Props.C12
 import PsaDhcp.Props.C13
+import PsaDhcp.Props.C14
+import PsaDhcp.Props.C16
+import PsaDhcp.Props.C17
+import PsaDhcp.Expect
